@@ -248,7 +248,7 @@ def build(case, journal):
                 snap = copy.deepcopy(es)
             journal.append((j, list(vertices), snap))
             return es
-        if case.get("callable_objects") and case.get("_clone") in (None, "copy"):
+        if case.get("callable_objects"):
             b = CallableBuilder(cb)
             _BUILDERS.setdefault(id(journal), []).append((j, b))
             return b
